@@ -51,6 +51,9 @@ type callD struct {
 type hcD struct {
 	Addr string `json:"addr"`
 	TLS  bool   `json:"tls"`
+	WT   int    `json:"wt,omitempty"` // WriteTimeout ms (0 = unset: dialAddr takes the lazy tls.Client branch)
+	RT   int    `json:"rt,omitempty"` // ReadTimeout ms
+	MW   int    `json:"mw,omitempty"` // MaxConnWaitTimeout ms
 }
 
 type desc struct {
@@ -58,6 +61,9 @@ type desc struct {
 	HCs   []hcD   `json:"hcs,omitempty"`
 	LB    []int   `json:"lb,omitempty"` // indices into HCs balanced by the LBClient
 	Calls []callD `json:"calls,omitempty"`
+	CWT   int     `json:"cwt,omitempty"` // Client.WriteTimeout ms
+	CRT   int     `json:"crt,omitempty"` // Client.ReadTimeout ms
+	CMW   int     `json:"cmw,omitempty"` // Client.MaxConnWaitTimeout ms
 	Addr  hlib.B  `json:"addr,omitempty"`
 	TLS   bool    `json:"tls,omitempty"`
 }
@@ -283,10 +289,13 @@ type histResult struct {
 func runHist(d desc) (coqCalls []string, res histResult) {
 	nw := &network{scripts: map[int]*hopScript{}}
 	cliTLS := &tls.Config{InsecureSkipVerify: true} // #nosec G402 -- in-process test certificate
-	client := &fasthttp.Client{Dial: nw.dial, TLSConfig: cliTLS, NoDefaultUserAgentHeader: true}
+	ms := func(n int) time.Duration { return time.Duration(n) * time.Millisecond }
+	client := &fasthttp.Client{Dial: nw.dial, TLSConfig: cliTLS, NoDefaultUserAgentHeader: true,
+		WriteTimeout: ms(d.CWT), ReadTimeout: ms(d.CRT), MaxConnWaitTimeout: ms(d.CMW)}
 	var hcs []*fasthttp.HostClient
 	for _, h := range d.HCs {
-		hcs = append(hcs, &fasthttp.HostClient{Addr: h.Addr, IsTLS: h.TLS, Dial: nw.dial, TLSConfig: cliTLS})
+		hcs = append(hcs, &fasthttp.HostClient{Addr: h.Addr, IsTLS: h.TLS, Dial: nw.dial, TLSConfig: cliTLS,
+			WriteTimeout: ms(h.WT), ReadTimeout: ms(h.RT), MaxConnWaitTimeout: ms(h.MW)})
 	}
 	var picks []int
 	lb := &fasthttp.LBClient{HealthCheck: func(*fasthttp.Request, *fasthttp.Response, error) bool { return true }, Timeout: 5 * time.Second}
@@ -533,10 +542,13 @@ func gen(r *rand.Rand, i int) desc {
 		return desc{Op: "port", Addr: b, TLS: r.Intn(2) == 0}
 	}
 	d := desc{Op: "hist"}
+	// timeout configuration: WriteTimeout selects the branch of dialAddr (0: lazy tls.Client, > 0: tlsClientHandshake)
+	tmo := func() int { return hlib.Pick(r, []int{0, 0, 3000, 5000}) }
+	d.CWT, d.CRT, d.CMW = tmo(), tmo(), tmo()
 	nHC := r.Intn(3)
 	for j := 0; j < nHC; j++ {
 		h := hlib.Pick(r, []string{"a.test:80", "a.test:443", "b.test:8080", "a.test:8443"})
-		d.HCs = append(d.HCs, hcD{Addr: h, TLS: r.Intn(2) == 0})
+		d.HCs = append(d.HCs, hcD{Addr: h, TLS: r.Intn(2) == 0, WT: tmo(), RT: tmo(), MW: tmo()})
 	}
 	if nHC > 0 && r.Intn(2) == 0 {
 		for j := 0; j < nHC; j++ {
@@ -558,7 +570,7 @@ func corpus() []desc {
 		c = append(c, desc{Op: "port", Addr: []byte(a), TLS: false}, desc{Op: "port", Addr: []byte(a), TLS: true})
 	}
 	one := func(calls ...callD) desc {
-		return desc{Op: "hist", HCs: []hcD{{"a.test:80", false}, {"a.test:443", true}}, LB: []int{0, 1}, Calls: calls}
+		return desc{Op: "hist", HCs: []hcD{{Addr: "a.test:80", TLS: false}, {Addr: "a.test:443", TLS: true}}, LB: []int{0, 1}, Calls: calls}
 	}
 	cl := func(api string, maxred int, hops ...hopD) callD { return callD{Via: "client", API: api, MaxRed: maxred, Hops: hops} }
 	hc := func(i int, api string, maxred int, hops ...hopD) callD { return callD{Via: "host", HC: i, API: api, MaxRed: maxred, Hops: hops} }
@@ -592,6 +604,39 @@ func corpus() []desc {
 		one(callD{Via: "lb", API: "do", Hops: []hopD{hop("http", "a.test")}}, callD{Via: "lb", API: "do", Hops: []hopD{hop("http", "a.test")}},
 			callD{Via: "lb", API: "do", Hops: []hopD{hop("https", "a.test")}}, callD{Via: "lb", API: "do", Hops: []hopD{hop("https", "a.test")}}),
 	)
+	// the whole matrix again with timeouts configured: WriteTimeout > 0 makes dialAddr complete the TLS handshake through
+	// tlsClientHandshake instead of returning a lazy tls.Client; ReadTimeout / MaxConnWaitTimeout take the other timed paths
+	base := len(c)
+	for i := 0; i < base; i++ {
+		if c[i].Op != "hist" {
+			continue
+		}
+		for _, cfg := range [][3]int{{4000, 0, 0}, {4000, 4000, 4000}, {0, 4000, 4000}} {
+			v := c[i]
+			v.CWT, v.CRT, v.CMW = cfg[0], cfg[1], cfg[2]
+			v.HCs = nil
+			for _, h := range c[i].HCs {
+				h.WT, h.RT, h.MW = cfg[0], cfg[1], cfg[2]
+				v.HCs = append(v.HCs, h)
+			}
+			c = append(c, v)
+		}
+	}
+	// mixed: Client without, HostClients with WriteTimeout (and the reverse)
+	for i := 0; i < base; i++ {
+		if c[i].Op != "hist" {
+			continue
+		}
+		v := c[i]
+		v.HCs = nil
+		for _, h := range c[i].HCs {
+			h.WT = 4000
+			v.HCs = append(v.HCs, h)
+		}
+		w := c[i]
+		w.CWT = 4000
+		c = append(c, v, w)
+	}
 	return c
 }
 
@@ -604,10 +649,14 @@ func run(d desc) hlib.Case {
 	calls, res := runHist(d)
 	var hcs []string
 	for _, h := range d.HCs {
-		hcs = append(hcs, hlib.Tuple(hlib.HexS(h.Addr), hlib.Bool(h.TLS)))
+		hcs = append(hcs, hlib.Tuple(hlib.HexS(h.Addr), hlib.Bool(h.TLS), hlib.Bool(h.WT != 0)))
 	}
-	return hlib.Case{Kind: "hist", Size: len(res.writes), Sig: res.sig,
-		Coq: hlib.App("C21Hist", hlib.List(hcs), hlib.List(calls), hlib.List(res.dials), hlib.List(res.writes), hlib.List(res.plain), hlib.List(res.outs))}
+	cfgSig := fmt.Sprintf("|w%v", d.CWT != 0)
+	for _, h := range d.HCs {
+		cfgSig += fmt.Sprintf("%v%v", h.TLS, h.WT != 0)
+	}
+	return hlib.Case{Kind: "hist", Size: len(res.writes), Sig: res.sig + cfgSig,
+		Coq: hlib.App("C21Hist", hlib.Bool(d.CWT != 0), hlib.List(hcs), hlib.List(calls), hlib.List(res.dials), hlib.List(res.writes), hlib.List(res.plain), hlib.List(res.outs))}
 }
 
 func main() {
